@@ -73,6 +73,9 @@ func (l *snLink) decide(dir string, i int, b []byte) (delays []time.Duration, ou
 		if r.Dir != dir || (r.Link != "" && r.Link != l.name) || (r.Class != "" && r.Class != class) {
 			continue
 		}
+		if r.Act == "werr" {
+			continue // decided when the write was attempted (werr)
+		}
 		n := l.ruleHits[ri]
 		l.ruleHits[ri] = n + 1
 		if n < r.Skip || n >= r.Skip+r.Count {
@@ -169,6 +172,40 @@ func corrupt(w *simrt.World, link, dir string, i int, b []byte) []byte {
 	return o
 }
 
+// werr: rules with Act "werr" make the write itself fail (nothing is sent).
+func (l *snLink) werr(dir string, b []byte) error {
+	s := l.s
+	pf := &s.Plan.Cfg.SN
+	has := false
+	for _, r := range pf.Rules {
+		if r.Act == "werr" {
+			has = true
+		}
+	}
+	if !has {
+		return nil
+	}
+	class := ""
+	if p, err := refsn.Decode(b); err == nil {
+		class = p.Name()
+	}
+	s.mu.Lock()
+	defer s.mu.Unlock()
+	for ri, r := range pf.Rules {
+		if r.Act != "werr" || r.Dir != dir || (r.Link != "" && r.Link != l.name) || (r.Class != "" && r.Class != class) {
+			continue
+		}
+		n := l.ruleHits[ri]
+		l.ruleHits[ri] = n + 1
+		if n < r.Skip || n >= r.Skip+r.Count {
+			continue
+		}
+		s.fault("write-error")
+		return errors.New("write udp: sendto: connection refused")
+	}
+	return nil
+}
+
 // c2g: the client side sent datagram b (called from the driver for raw peers, from the client's
 // goroutine for real clients — in both cases only schedules).
 func (l *snLink) c2g(b []byte) {
@@ -208,6 +245,7 @@ func (l *snLink) deliverC2G(b []byte) {
 		sess := l.sessName()
 		gc := s.W.NewConn("gw.sn:"+sess, true, simrt.Addr{Net: "udp", S: gwAddr}, l.addr)
 		gc.Out = func(i int, bb []byte) { l.g2c(bb) }
+		gc.WErr = func(i int, bb []byte) error { return l.werr("g2c", bb) }
 		gc.OnClose = func() { s.W.Log("sess:"+sess, "end", nil, "", 0) }
 		l.gw = gc
 		s.mu.Lock()
